@@ -301,8 +301,12 @@ def check(pid, tier, seed, only=None, jobs=None):
         "wall_s": round(time.time() - t_start, 1),
         "violations": len(violations),
     }
-    os.makedirs(os.path.join(ROOT, "evidence"), exist_ok=True)
-    with open(os.path.join(ROOT, "evidence", pid + ".json"), "w") as f:
+    # development runs (a subset of the obligations, or a scratch copy of the repository) must not replace the evidence of
+    # the last full run on /repo: they write next to the build output instead
+    partial = bool(only) or bool(os.environ.get("VERIF_REPO"))
+    ev_dir = os.path.join(ROOT, "build", pid) if partial else os.path.join(ROOT, "evidence")
+    os.makedirs(ev_dir, exist_ok=True)
+    with open(os.path.join(ev_dir, ("evidence_partial" if partial else pid) + ".json"), "w") as f:
         json.dump(ev, f, indent=1, sort_keys=True, default=str)
     print("SUMMARY property=%s tier=%s obligations=%d discharged=%d inconclusive=%d violations=%d harness_errors=%d "
           "paths=%d solver_calls=%d solver_s=%.1f wall=%.0fs" % (pid, tier, len(results), discharged, len(inconclusive), len(violations),
